@@ -29,8 +29,11 @@ Overlay(st, p) ==
 
 Ov(e) == [k \in 1..Len(e.routes) |-> {e.routes[k][j] : j \in 1..Len(e.routes[k])}]
 
-Post(e) ==
+\* e.pd: the transport of destination pd paused its producer INSIDE a write() of this callback (its buffer overflowed):
+\* the callback composed with TPause.  "WFull" only primes the stand-in transport for that (no state change).
+Post0(e) ==
   CASE e.e = "Init" -> InitState
+    [] e.e = "WFull" -> s
     [] e.e = "Arrive" -> ArriveF(s, e.i, FALSE, Ov(e))
     [] e.e = "ArriveHi" -> ArriveF(s, e.i, TRUE, Ov(e))
     [] e.e = "SendTimer" -> SendTimerF(s, e.arg, Ov(e))
@@ -45,6 +48,7 @@ Post(e) ==
     [] e.e = "RDisconnect" -> RDisconnectF(s, e.arg)
     [] e.e = "Slow" -> QualityF(s, TRUE)
     [] e.e = "Fast" -> QualityF(s, FALSE)
+Post(e) == IF e.pd # 0 /\ e.e # "Init" THEN TPauseF(Post0(e), e.pd) ELSE Post0(e)
 
 OutOf(w, q) == FlattenSeq(w) \o q
 
